@@ -1,6 +1,8 @@
 import Thanos.Model.CachingBucket
 import Thanos.Model.CachingBucketOps
 import Thanos.Lemmas.CachingBucket
+import Thanos.Lemmas.BucketKey
+import Thanos.Lemmas.CachingBucketOps
 import Thanos.Generated.Facts
 /-
   C14 — Caching bucket is transparent for immutable objects.
@@ -230,7 +232,7 @@ theorem C14_history (obj : Bytes) (S maxSub : Nat) (hS : S ≥ 1) :
   | (r, view) :: rest, entries, he, ⟨h1, h2, h3, h4⟩ => by
     have hon : Honest obj view := by
       intro a b bs hv
-      exact he _ (h3 a b bs hv)
+      exact (he _ (h3 a b bs hv)).2
     have hout := C14_getRange obj S maxSub view r.p r.off r.len hS h2 h1 hon
     have hst := C14_stores_honest obj S maxSub view r.p r.off r.len hS h2 h1 hon
     have he' : StoresHonest obj (entries ++ (getRange true obj S maxSub view r.p r.off r.len).stores) := by
@@ -241,140 +243,296 @@ theorem C14_history (obj : Bytes) (S maxSub : Nat) (hS : S ≥ 1) :
     simp only [runHistory, List.map_cons, hout]
     rw [C14_history obj S maxSub hS rest _ he' h4]
 
-/-! ### full reads, existence, attributes, listings -/
+/-! ### every verb over one cache keyed by `BucketCacheKey.String` -/
 
-/-- the per-verb cache entries are honest: they say what the wrapped bucket says -/
-structure OpsHonest (obj : Option Bytes) (listing : List Nat) (c : OpsCache) : Prop where
-  content : ∀ b, c.content = some b → obj = some b
-  exist : ∀ e, c.exist = some e → e = obj.isSome
-  attrs : ∀ n, c.attrs = some n → ∃ b, obj = some b ∧ n = b.length
-  iter : ∀ l, c.iter = some l → l = listing
-
-theorem opsHonest_empty (obj : Option Bytes) (listing : List Nat) : OpsHonest obj listing .empty :=
-  ⟨by simp [OpsCache.empty], by simp [OpsCache.empty], by simp [OpsCache.empty], by simp [OpsCache.empty]⟩
-
-/-- Get through the caching bucket = Get on the wrapped bucket (present or absent object, any way
-    of consuming the reader, any size limit, whatever the cache returns of its entries), and the
-    cache stays honest. -/
-theorem C14_get (obj : Option Bytes) (listing : List Nat) (maxSize : Nat) (mode : ReadMode)
-    (seeContent seeExist : Bool) (c : OpsCache) (h : OpsHonest obj listing c) :
-    (opGet obj maxSize mode seeContent seeExist c).ans = bucketGet obj mode ∧
-    OpsHonest obj listing (opGet obj maxSize mode seeContent seeExist c).cache := by
-  unfold opGet
-  cases hc : (if seeContent = true then c.content else none) with
-  | some b =>
-    have hb : c.content = some b := by
-      cases seeContent <;> simp_all
-    have := h.content b hb
-    subst this
-    exact ⟨rfl, h⟩
+open Thanos.CacheKeys in
+/-- cachedAttributes: the size is the object's size, and what is stored is honest -/
+theorem kAttrs_ok (w : World) (name : Str) (view : Str → Option Val) (c : KCache)
+    (hc : HonestK w c) (hv : SubViewK c view) :
+    (kAttrs w name view).1 = (w.obj name).map (·.length) ∧ HonestK w (kAttrs w name view).2.2 := by
+  unfold kAttrs
+  have wk := wfb_plain w.hash .attrs name (by simp) (by simp) (by simp)
+  simp only
+  cases hsz : asSize (view (keyOf .attrs name 0 0 [])) with
+  | some n =>
+    have ht := view_truth hc hv _ wk _ (asSize_some hsz)
+    simp only [truth] at ht
+    cases ho : w.obj name with
+    | none => simp [ho] at ht
+    | some b =>
+      simp only [ho, Option.map_some, Option.some.injEq, Val.size.injEq] at ht
+      subst ht
+      exact ⟨rfl, honestK_nil w⟩
   | none =>
     simp only
-    cases obj with
+    cases ho : w.obj name with
+    | none => exact ⟨rfl, honestK_nil w⟩
+    | some b =>
+      refine ⟨rfl, ?_⟩
+      intro ks v hm
+      simp only [List.mem_singleton, Prod.mk.injEq] at hm
+      obtain ⟨rfl, rfl⟩ := hm
+      exact ⟨_, wk, rfl, by simp [truth, ho]⟩
+
+open Thanos.CacheKeys in
+theorem C14_k_attributes (w : World) (name : Str) (view : Str → Option Val) (c : KCache)
+    (hc : HonestK w c) (hv : SubViewK c view) :
+    (kAttributes w name view).ans = bAttributes w name ∧ HonestK w (c ++ (kAttributes w name view).stores) := by
+  obtain ⟨h1, h2⟩ := kAttrs_ok w name view c hc hv
+  unfold kAttributes bAttributes
+  cases hk : kAttrs w name view with
+  | mk sz rest =>
+    obtain ⟨calls, st⟩ := rest
+    rw [hk] at h1 h2
+    simp only at h1 h2
+    cases ho : w.obj name with
     | none =>
-      -- absent object: a cached "exists" entry can only say false
-      have hstore : OpsHonest none listing { c with exist := some false } :=
-        ⟨h.content, by intro e he; simp at he; simp [← he], h.attrs, h.iter⟩
-      cases he : (if seeExist = true then c.exist else none) with
-      | none => exact ⟨rfl, hstore⟩
-      | some e =>
-        cases e with
-        | false => exact ⟨rfl, h⟩
-        | true => exact ⟨rfl, hstore⟩
+      rw [ho] at h1; simp only [Option.map_none] at h1; subst h1
+      exact ⟨rfl, honestK_append hc h2⟩
     | some b =>
-      have hstore : OpsHonest (some b) listing
-          (if mode = ReadMode.full ∧ b.length ≤ maxSize then
-            { content := some b, exist := some true, attrs := c.attrs, iter := c.iter }
-           else { content := c.content, exist := some true, attrs := c.attrs, iter := c.iter }) := by
-        by_cases hcond : mode = ReadMode.full ∧ b.length ≤ maxSize
-        · simp only [hcond, and_self, if_true]
-          exact ⟨by intro b' hb'; simp at hb'; simp [hb'], by intro e he; simp at he; simp [← he],
-            h.attrs, h.iter⟩
-        · simp only [hcond, if_false]
-          exact ⟨h.content, by intro e he; simp at he; simp [← he], h.attrs, h.iter⟩
-      cases he : (if seeExist = true then c.exist else none) with
-      | none => exact ⟨rfl, hstore⟩
-      | some e =>
-        have heb : c.exist = some e := by cases seeExist <;> simp_all
-        have hev := h.exist e heb
-        cases e with
-        | false => simp at hev
-        | true => exact ⟨rfl, hstore⟩
+      rw [ho] at h1; simp only [Option.map_some] at h1; subst h1
+      exact ⟨rfl, honestK_append hc h2⟩
 
+open Thanos.CacheKeys in
+/-- GetRange through the caching bucket, with the cache addressed by key strings -/
+theorem C14_k_getRange (w : World) (S maxSub p : Nat) (name : Str) (off len : Nat)
+    (view : Str → Option Val) (c : KCache) (hS : S ≥ 1) (hp : p ≥ 1) (hlen : len ≥ 1)
+    (hc : HonestK w c) (hv : SubViewK c view) :
+    (kGetRange w S maxSub p name off len view).ans = bGetRange w name off len ∧
+    HonestK w (c ++ (kGetRange w S maxSub p name off len view).stores) := by
+  obtain ⟨h1, h2⟩ := kAttrs_ok w name view c hc hv
+  unfold kGetRange bGetRange
+  cases hk : kAttrs w name view with
+  | mk sz rest =>
+    obtain ⟨calls, st⟩ := rest
+    rw [hk] at h1 h2
+    simp only at h1 h2
+    cases ho : w.obj name with
+    | none =>
+      rw [ho] at h1; simp only [Option.map_none] at h1; subst h1
+      exact ⟨rfl, honestK_append hc h2⟩
+    | some b =>
+      rw [ho] at h1; simp only [Option.map_some] at h1; subst h1
+      simp only
+      -- the subrange cache seen through the key strings is honest
+      have hon : Honest b (fun a e => if a < e then asBytes (view (keyOf .subrange name a e [])) else none) := by
+        intro a e bs hcache
+        by_cases hae : a < e
+        · simp only [hae, if_true] at hcache
+          have ht := view_truth hc hv _ (wfb_subrange w.hash name a e hae) _ (asBytes_some hcache)
+          simpa [truth, ho] using ht.symm
+        · simp [hae] at hcache
+      have hout := C14_getRange b S maxSub _ p off len hS hp hlen hon
+      have hst := C14_stores_honest b S maxSub _ p off len hS hp hlen hon
+      simp only [hout]
+      refine ⟨trivial, honestK_append hc (honestK_append h2 ?_)⟩
+      intro ks v hm
+      simp only [List.mem_map] at hm
+      obtain ⟨e, he, heq⟩ := hm
+      simp only [Prod.mk.injEq] at heq
+      obtain ⟨rfl, rfl⟩ := heq
+      obtain ⟨hlt, hdata⟩ := hst e he
+      exact ⟨_, wfb_subrange w.hash name e.1.1 e.1.2 hlt, rfl, by simp [truth, ho, hdata]⟩
+
+open Thanos.CacheKeys in
+/-- Get (whole, partial or exact reads; present or absent object; any size limit) -/
+theorem C14_k_get (w : World) (maxSize : Nat) (name : Str) (mode : ReadMode)
+    (view : Str → Option Val) (c : KCache) (hc : HonestK w c) (hv : SubViewK c view) :
+    (kGet w maxSize name mode view).ans = bGet w name mode ∧
+    HonestK w (c ++ (kGet w maxSize name mode view).stores) := by
+  have wc := wfb_plain w.hash .content name (by simp) (by simp) (by simp)
+  have we := wfb_plain w.hash .exists_ name (by simp) (by simp) (by simp)
+  -- what a miss stores is honest
+  have hmiss : ∀ b, w.obj name = some b →
+      HonestK w ((keyOf .exists_ name 0 0 [], .flag true) ::
+        (if mode = ReadMode.full ∧ b.length ≤ maxSize then [(keyOf .content name 0 0 [], .bytes b)] else [])) := by
+    intro b ho ks v hm
+    simp only [List.mem_cons] at hm
+    rcases hm with hm | hm
+    · simp only [Prod.mk.injEq] at hm
+      obtain ⟨rfl, rfl⟩ := hm
+      exact ⟨_, we, rfl, by simp [truth, ho]⟩
+    · split at hm
+      · simp only [List.mem_singleton, Prod.mk.injEq] at hm
+        obtain ⟨rfl, rfl⟩ := hm
+        exact ⟨_, wc, rfl, by simp [truth, ho]⟩
+      · simp at hm
+  have habsent : w.obj name = none → HonestK w [(keyOf .exists_ name 0 0 [], .flag false)] := by
+    intro ho ks v hm
+    simp only [List.mem_singleton, Prod.mk.injEq] at hm
+    obtain ⟨rfl, rfl⟩ := hm
+    exact ⟨_, we, rfl, by simp [truth, ho]⟩
+  unfold kGet bGet
+  simp only
+  cases hvc : asBytes (view (keyOf .content name 0 0 [])) with
+  | some b =>
+    have ht := view_truth hc hv _ wc _ (asBytes_some hvc)
+    simp only [truth] at ht
+    cases ho : w.obj name with
+    | none => simp [ho] at ht
+    | some b' =>
+      simp only [ho, Option.map_some, Option.some.injEq, Val.bytes.injEq] at ht
+      subst ht
+      exact ⟨rfl, by simpa using hc⟩
+  | none =>
+    simp only
+    cases hve : asFlag (view (keyOf .exists_ name 0 0 [])) with
+    | some e =>
+      have ht := view_truth hc hv _ we _ (asFlag_some hve)
+      simp only [truth, Option.some.injEq, Val.flag.injEq] at ht
+      cases ho : w.obj name with
+      | none =>
+        rw [ho] at ht; simp only [Option.isSome_none] at ht; subst ht
+        exact ⟨rfl, by simpa using hc⟩
+      | some b =>
+        rw [ho] at ht; simp only [Option.isSome_some] at ht; subst ht
+        exact ⟨rfl, honestK_append hc (hmiss b ho)⟩
+    | none =>
+      simp only
+      cases ho : w.obj name with
+      | none => exact ⟨rfl, honestK_append hc (habsent ho)⟩
+      | some b => exact ⟨rfl, honestK_append hc (hmiss b ho)⟩
+
+open Thanos.CacheKeys in
 /-- the content of an object enters the cache only by a complete read of an object that fits -/
-theorem C14_get_full_only (obj : Option Bytes) (maxSize : Nat) (mode : ReadMode)
-    (seeContent seeExist : Bool) (c : OpsCache) (b : Bytes)
-    (h : (opGet obj maxSize mode seeContent seeExist c).cache.content = some b) :
-    c.content = some b ∨ (mode = .full ∧ b.length ≤ maxSize ∧ obj = some b) := by
-  unfold opGet at h
-  split at h
-  · exact Or.inl h
-  · split at h
-    · exact Or.inl h
-    · cases obj with
-      | none => exact Or.inl h
-      | some b' =>
-        simp only at h
-        split at h
+theorem C14_k_get_full_only (w : World) (maxSize : Nat) (name : Str) (mode : ReadMode)
+    (view : Str → Option Val) (b : Bytes)
+    (h : (keyOf .content name 0 0 [], Val.bytes b) ∈ (kGet w maxSize name mode view).stores) :
+    mode = .full ∧ b.length ≤ maxSize ∧ w.obj name = some b := by
+  unfold kGet at h
+  simp only at h
+  cases hvc : asBytes (view (keyOf .content name 0 0 [])) with
+  | some b' => simp [hvc] at h
+  | none =>
+    simp only [hvc] at h
+    cases ho : w.obj name with
+    | none =>
+      cases hve : asFlag (view (keyOf .exists_ name 0 0 [])) with
+      | none => simp [hve, ho] at h
+      | some e => cases e <;> simp [hve, ho] at h
+    | some b' =>
+      have hcore : (keyOf .content name 0 0 [], Val.bytes b) ∈
+          ((keyOf .exists_ name 0 0 [], Val.flag true) ::
+            (if mode = ReadMode.full ∧ b'.length ≤ maxSize then [(keyOf .content name 0 0 [], Val.bytes b')] else [])) := by
+        cases hve : asFlag (view (keyOf .exists_ name 0 0 [])) with
+        | none => simpa [hve, ho] using h
+        | some e => cases e <;> simp [hve, ho] at h ⊢ <;> exact h
+      simp only [List.mem_cons, Prod.mk.injEq] at hcore
+      rcases hcore with ⟨_, hbad⟩ | hcore
+      · cases hbad
+      · split at hcore
         · rename_i hcond
-          simp only [Option.some.injEq] at h
-          subst h
-          exact Or.inr ⟨hcond.1, hcond.2, rfl⟩
-        · exact Or.inl h
+          simp only [List.mem_singleton, Prod.mk.injEq, Val.bytes.injEq] at hcore
+          exact ⟨hcond.1, by rw [hcore.2]; exact hcond.2, by rw [hcore.2]⟩
+        · simp at hcore
 
-theorem C14_exists (obj : Option Bytes) (listing : List Nat) (seeExist : Bool) (c : OpsCache)
-    (h : OpsHonest obj listing c) :
-    (opExists obj seeExist c).ans = .bool obj.isSome ∧ OpsHonest obj listing (opExists obj seeExist c).cache := by
-  unfold opExists
-  cases he : (if seeExist = true then c.exist else none) with
+open Thanos.CacheKeys in
+theorem C14_k_exists (w : World) (name : Str) (view : Str → Option Val) (c : KCache)
+    (hc : HonestK w c) (hv : SubViewK c view) :
+    (kExists w name view).ans = .bool (w.obj name).isSome ∧ HonestK w (c ++ (kExists w name view).stores) := by
+  have we := wfb_plain w.hash .exists_ name (by simp) (by simp) (by simp)
+  unfold kExists
+  simp only
+  cases hve : asFlag (view (keyOf .exists_ name 0 0 [])) with
   | some e =>
-    have heb : c.exist = some e := by cases seeExist <;> simp_all
-    have := h.exist e heb
-    subst this
-    exact ⟨rfl, h⟩
+    have ht := view_truth hc hv _ we _ (asFlag_some hve)
+    simp only [truth, Option.some.injEq, Val.flag.injEq] at ht
+    subst ht
+    exact ⟨rfl, by simpa using hc⟩
   | none =>
-    exact ⟨rfl, ⟨h.content, by intro e he'; simp at he'; exact he'.symm, h.attrs, h.iter⟩⟩
+    refine ⟨rfl, honestK_append hc ?_⟩
+    intro ks v hm
+    simp only [List.mem_singleton, Prod.mk.injEq] at hm
+    obtain ⟨rfl, rfl⟩ := hm
+    exact ⟨_, we, rfl, by simp [truth]⟩
 
-theorem C14_attributes (obj : Option Bytes) (listing : List Nat) (seeAttrs : Bool) (c : OpsCache)
-    (h : OpsHonest obj listing c) :
-    (opAttributes obj seeAttrs c).ans = bucketAttributes obj ∧
-    OpsHonest obj listing (opAttributes obj seeAttrs c).cache := by
-  unfold opAttributes
-  cases ha : (if seeAttrs = true then c.attrs else none) with
-  | some n =>
-    have hab : c.attrs = some n := by cases seeAttrs <;> simp_all
-    obtain ⟨b, hb, hn⟩ := h.attrs n hab
-    subst hb; subst hn
-    exact ⟨rfl, h⟩
-  | none =>
-    cases obj with
-    | none => exact ⟨rfl, h⟩
-    | some b =>
-      exact ⟨rfl, ⟨h.content, h.exist, by intro n hn; simp at hn; exact ⟨b, rfl, hn.symm⟩, h.iter⟩⟩
-
-theorem C14_iter (obj : Option Bytes) (listing : List Nat) (seeIter : Bool) (c : OpsCache)
-    (h : OpsHonest obj listing c) :
-    (opIter listing seeIter c).ans = .names listing ∧ OpsHonest obj listing (opIter listing seeIter c).cache := by
-  unfold opIter
-  cases hi : (if seeIter = true then c.iter else none) with
+open Thanos.CacheKeys in
+/-- Iter, recursive or not: the listing of the wrapped bucket for that directory and that flavour
+    — the two flavours have different keys, so one never answers for the other -/
+theorem C14_k_iter (w : World) (dir : Str) (recursive : Bool) (view : Str → Option Val) (c : KCache)
+    (hc : HonestK w c) (hv : SubViewK c view) :
+    (kIter w dir recursive view).ans = .names (w.list dir recursive) ∧
+    HonestK w (c ++ (kIter w dir recursive view).stores) := by
+  have wi := wfb_iter w.hash dir recursive
+  have htruth : truth w ⟨if recursive then .iterRecursive else .iter, dir, 0, 0, w.hash⟩ =
+      some (.names (w.list dir recursive)) := by
+    cases recursive <;> simp [truth]
+  unfold kIter
+  simp only
+  cases hvi : asNames (view (keyOf (if recursive then .iterRecursive else .iter) dir 0 0 w.hash)) with
   | some l =>
-    have hib : c.iter = some l := by cases seeIter <;> simp_all
-    have := h.iter l hib
-    subst this
-    exact ⟨rfl, h⟩
+    have ht := view_truth hc hv _ wi _ (asNames_some hvi)
+    rw [htruth] at ht
+    simp only [Option.some.injEq, Val.names.injEq] at ht
+    subst ht
+    exact ⟨rfl, by simpa using hc⟩
   | none =>
-    exact ⟨rfl, ⟨h.content, h.exist, h.attrs, by intro l hl; simp at hl; exact hl.symm⟩⟩
+    refine ⟨rfl, honestK_append hc ?_⟩
+    intro ks v hm
+    simp only [List.mem_singleton, Prod.mk.injEq] at hm
+    obtain ⟨rfl, rfl⟩ := hm
+    exact ⟨_, wi, rfl, htruth⟩
+
+/-- the history of views is well formed: every view shows part of what is stored at that point,
+    lengths and read buffers are positive -/
+def KHistOK (w : World) (cfg : Cfg) : List (KOp × (Thanos.CacheKeys.Str → Option Val)) → KCache → Prop
+  | [], _ => True
+  | (op, view) :: rest, c =>
+    SubViewK c view ∧
+    (∀ name off len p, op = .getRange name off len p → len ≥ 1 ∧ p ≥ 1) ∧
+    KHistOK w cfg rest (c ++ (kStep w cfg op view).stores)
+
+/-- **C14 for histories of every verb**: range reads, full / partial reads, existence, attributes,
+    recursive and non-recursive listings, on present and absent objects of any names, interleaved
+    in any order, through a cache that loses or evicts entries at will — every answer is the
+    answer of the wrapped bucket. -/
+theorem C14_k_history (w : World) (cfg : Cfg) (hS : cfg.S ≥ 1) :
+    ∀ (h : List (KOp × (Thanos.CacheKeys.Str → Option Val))) (c : KCache), HonestK w c → KHistOK w cfg h c →
+      kRun w cfg h c = h.map fun ov => bStep w ov.1
+  | [], _, _, _ => rfl
+  | (op, view) :: rest, c, hc, ⟨hv, hpos, hrest⟩ => by
+    have hstep : (kStep w cfg op view).ans = bStep w op ∧ HonestK w (c ++ (kStep w cfg op view).stores) := by
+      cases op with
+      | getRange name off len p =>
+        obtain ⟨h1, h2⟩ := hpos name off len p rfl
+        exact C14_k_getRange w cfg.S cfg.maxSub p name off len view c hS h2 h1 hc hv
+      | get name mode => exact C14_k_get w cfg.maxGet name mode view c hc hv
+      | exists_ name => exact C14_k_exists w name view c hc hv
+      | attributes name => exact C14_k_attributes w name view c hc hv
+      | iter dir recursive => exact C14_k_iter w dir recursive view c hc hv
+    simp only [kRun, List.map_cons, hstep.1]
+    rw [C14_k_history w cfg hS rest _ hstep.2 hrest]
+
+/-- the seeded defect in one sentence: with one key for both flavours of Iter, a cached
+    non-recursive listing answers a recursive one -/
+example : Thanos.CacheKeys.bucketKeyString ⟨.iter, [97], 0, 0, [104]⟩ ≠
+    Thanos.CacheKeys.bucketKeyString ⟨.iterRecursive, [97], 0, 0, [104]⟩ := by decide
+
+/-! ### the cache keys of the caching bucket -/
+
+/-- `BucketCacheKey.String` is injective on the keys the caching bucket builds (any object names,
+    also names containing ':'): two different (verb, name, range) never share a key, so the cache
+    cannot answer one of them with the other's data. -/
+theorem C14_bucket_key_inj (H : Thanos.CacheKeys.Str) (k1 k2 : Thanos.CacheKeys.BucketKey)
+    (w1 : Thanos.CacheKeys.WFB H k1) (w2 : Thanos.CacheKeys.WFB H k2)
+    (h : Thanos.CacheKeys.bucketKeyString k1 = Thanos.CacheKeys.bucketKeyString k2) : k1 = k2 :=
+  Thanos.CacheKeys.bucketKey_inj H k1 k2 w1 w2 h
+
+example : Thanos.CacheKeys.bucketKeyString ⟨.subrange, [97, 58, 49], 16, 32, []⟩ =
+    [115, 117, 98, 114, 97, 110, 103, 101, 58, 97, 58, 49, 58, 49, 54, 58, 51, 50] := by decide
 
 /-! ### regenerated facts -/
 
 /-- the guard in the source is the one of `getRange true`; ranges are merged when the gap is at
     most `limit`; the merge loop starts at the subrange size and doubles; a fetched subrange is
-    kept (and stored) only when the key is not in `hits` yet -/
+    kept (and stored) only when the key is not in `hits` yet; Iter computes its cache key AFTER the
+    verb was adjusted for recursive listings (as `kIter` does) -/
 theorem C14_source_facts :
     Thanos.Facts.cachedGetRangeGuard = "offset >= attrs.Size" ∧
     Thanos.Facts.mergeRangesCond = "(input[ix].start - input[last].end) <= limit" ∧
     Thanos.Facts.mergeUntilLoop =
       "limit := cfg.SubrangeSize; cfg.MaxSubRequests > 0 && len(missing) > cfg.MaxSubRequests; limit = limit * 2" ∧
+    Thanos.Facts.iterKeyOrder = ["verb=cachekey.IterRecursiveVerb", "key=iterVerb.String()"] ∧
     Thanos.Facts.subrangeStoreCond = "_, ok := hits[key]; !ok" ∧
     Thanos.Facts.lastSubrangeConds =
       ["if:offset >= attrs.Size", "if:offset+length > attrs.Size", "if:endRange > attrs.Size",
